@@ -20,6 +20,10 @@ def describe(p):
         d = p.get('depth_completed')
         ds = f'fixpoint at depth {d}' if fix else f'depth {d}'
         cap = ' **capped**' if p.get('capped') else ''
+        if p.get('capped'):
+            # a capped part: the depth each configuration completed (0 = its share of the budget was gone)
+            per = [str(c.get('depth_completed', 0)) for c in p['configs']]
+            ds = f'depth {p.get("depth")} requested, completed per configuration: ' + '/'.join(per[:12]) + ('…' if len(per) > 12 else '')
         shown = ', '.join(cfgs[:6]) + (f', … ({len(cfgs)})' if len(cfgs) > 6 else '')
         return f'{alpha} ops; {shown}; {ds}; {fmt_n(p["states"])} states / {fmt_n(p["transitions"])} transitions{cap}'
     keys = [k for k in p if k not in ('part', 'wall_s', 'violating', 'violating_texts', 'violating_strings', 'violations')]
